@@ -158,6 +158,10 @@ func runC18(c *fw.Ctx) {
 		// one float close to the end of the float64 range next to small numbers (sum and mean stay finite in every order)
 		{1e308, 4}, {4, 1e308}, {1.7e308, 1, 2}, {-1.7e308, 3}, {1e308, 0, 0, 0}, {math.MaxFloat64, 1, -1}, {2, 8.9e307, 3.5},
 		// products at the ends of the int range (exact in float64 in every order)
+		// factors of very different magnitude whose product is an ordinary number (in the order given; other orders leave
+		// the range on the way and end at an infinity or at zero, never at NaN)
+		{1e200, 1e-200, 1e200, 1e-200}, {1e-200, 1e200, 1e-200, 1e200}, {1e300, 1e300, 1e-300, 1e-300}, {1e-300, 1e-300, 1e300, 1e300}, {1e200, 2, 1e200, 0.5, 1e-200, 4, 1e-200},
+		{-1e250, 1e-250, -1e250, 1e-250, 3}, {1e308, 10, 0.1, 1e-308}, {5e-324, 1e308, 5e-324, 1e308},
 		// the bottom of the range: sums of subnormals are exact, the mean is the correctly rounded quotient
 		{5e-324, 5e-324}, {5e-324, 5e-324, 5e-324, 5e-324}, {1e-323, 5e-324}, {2.5e-323, 5e-324, 5e-324, 5e-324}, {5e-324}, {-5e-324, -5e-324}, {5e-324, -5e-324}, {1e-310, 3e-310, 5e-324, 0},
 		{2e-323, 1, -1}, {5e-324, 0, 0, 0, 0, 0, 0, 0},
@@ -389,6 +393,24 @@ func c18NumericHist(c *fw.Ctx, l at.List, vals []any, class int, depth int, rr u
 		var sum, prod, gmin, gmax, avg float64
 		if p, msg := drive.Protect(func() { sum, prod, gmin, gmax, avg = l.Sum(), l.Prod(), l.Min(), l.Max(), l.Avg() }); p {
 			c.Violate("aggregate-panics", in(), "a number", msg)
+			return
+		}
+		// whatever the order of evaluation: finite elements never add up to NaN (a partial sum that left the range stays at its
+		// infinity), and non-zero finite factors never multiply to NaN (a partial product that left the range stays at its
+		// infinity or at zero) - NaN needs Inf - Inf or Inf * 0, which no fold of such elements contains
+		hasZero := false
+		for _, v := range vals {
+			if toF(v) == 0 {
+				hasZero = true
+			}
+		}
+		c.Count("nan_freedom_checked")
+		if math.IsNaN(sum) || math.IsNaN(avg) || math.IsNaN(gmin) || math.IsNaN(gmax) {
+			c.Violate("aggregate-wrong:NaN", in(), "numbers (finite elements never add up to NaN in any order)", fmt.Sprintf("Sum %v Avg %v Min %v Max %v", sum, avg, gmin, gmax))
+			return
+		}
+		if !hasZero && math.IsNaN(prod) {
+			c.Violate("aggregate-wrong:Prod", in(), "a number (non-zero finite factors never multiply to NaN in any order)", "NaN")
 			return
 		}
 		// Min / Max are exact
